@@ -62,6 +62,14 @@ macro_rules! dispatch {
                 let $p = &props::parsers::C04;
                 $body
             }
+            "C13" => {
+                let $p = &props::scan::C13;
+                $body
+            }
+            "C16" => {
+                let $p = &props::scan::C16;
+                $body
+            }
             "C11" => {
                 let $p = &props::writer::WriterProp { c14: false };
                 $body
@@ -86,6 +94,8 @@ fn components(property: &str) -> Vec<&'static str> {
         "C02" => vec!["C02"],
         "C09" => vec!["C09r"],
         "C11" => vec!["C11"],
+        "C13" => vec!["C13"],
+        "C16" => vec!["C16"],
         "C14" => vec!["C14r", "C14w"],
         _ => vec![],
     }
@@ -133,6 +143,9 @@ fn run_part<P: Prop>(p: &P, tier: Tier, seed: u64, outfile: &str) {
     kv.put("wall_s", format!("{:.3}", out.wall_s));
     for (k, v) in &out.stats.counters {
         kv.put(&format!("counter.{k}"), v);
+    }
+    if !out.stats.bits.is_empty() {
+        kv.put("counter.reach.coverage_bitmap_cases_hit", out.stats.bits_set());
     }
     for (i, s) in out.samples.iter().enumerate() {
         kv.put(&format!("sample.{i}"), s.render().replace('\n', " "));
